@@ -89,6 +89,17 @@ def make_files(tier, rng, ctx):
         ag2[i_] = {'A': 'C', 'C': 'A', 'G': 'T', 'T': 'G'}[ag2[i_]]
     files.append({'name': 'ambcrash64', 'k': 31, 'cli': False, 'crash_only': True,
                   'path': build('ambcrash64', 31, [[ag, ''.join(ag2)], [ag[:30000] + G.rseq(rng, 3000)], [ag[5000:]], [ag[:35000]]])})
+    # a file of more than 1 MiB that an in-place delete has rewritten (whatever that operation leaves at the end of the file is part of
+    # the file): damage targeted at chunk boundaries, at the last 256 bytes completely, and at a random sample
+    dg = G.rseq(rng, 42000)
+    pdel = build('afterdelete64', 31, [[dg], [dg[:21000] + G.rseq(rng, 21000)], [G.rseq(rng, 42000)]])
+    if ctx.sh(ctx.ska, 'delete', '-s', pdel, 'afterdelete64_s2').returncode != 0:
+        raise Inconclusive('could not prepare the file rewritten by delete')
+    files.append({'name': 'afterdelete64', 'k': 31, 'path': pdel, 'cli': False, 'targeted': True, 'sample': (300, 2500) if tier == 'quick' else (3000, 30000)})
+    if tier == 'thorough':
+        # 8 MiB and more: a loader that treats large files differently
+        gg = G.rseq(rng, 700000)
+        files.append({'name': 'giant64', 'k': 31, 'path': build('giant64', 31, [[gg]]), 'cli': False, 'targeted': True, 'sample': (200, 2500)})
     if tier == 'thorough':
         big = G.rseq(rng, 8000)
         files.append({'name': 'manyframes64', 'k': 31, 'path': build('manyframes64', 31, [[big], [big[:4000] + G.rseq(rng, 4000)], [G.rseq(rng, 4500)]]), 'cli': False})
@@ -111,8 +122,11 @@ def prepare(tier, seed, rng, scale, ctx):
         while i + 4 <= len(data):
             bounds.append(i)
             i += 4 + (data[i + 1] | (data[i + 2] << 8) | (data[i + 3] << 16))
-        tr = sorted({min(len(data) - 1, max(0, b + d)) for b in bounds for d in (-2, -1, 0, 1, 2, 3, 4, 5)} | {rng.randrange(len(data)) for _ in range(3000)})
-        fl = sorted({(b + o) * 8 + bit for b in bounds for o in range(8) for bit in range(8) if b + o < len(data)} | {rng.randrange(len(data) * 8) for _ in range(30000)})
+        nt_, nf_ = f.get('sample', (3000, 30000))
+        tail = range(max(0, len(data) - 256), len(data))          # the end of the file completely (whatever a writer appends last)
+        tr = sorted({min(len(data) - 1, max(0, b + d)) for b in bounds for d in (-2, -1, 0, 1, 2, 3, 4, 5)} | {rng.randrange(len(data)) for _ in range(nt_)} | set(tail))
+        fl = sorted({(b + o) * 8 + bit for b in bounds for o in range(8) for bit in range(8) if b + o < len(data)} | {rng.randrange(len(data) * 8) for _ in range(nf_)}
+                    | {x * 8 + bit for x in tail for bit in range(8)})
         for mode, idx in (('trunc', tr), ('flip', fl)):
             for a in range(0, len(idx), 1500):
                 lf = ctx.write('%s_%s_%d.idx' % (f['name'], mode, a), '\n'.join(str(x) for x in idx[a:a + 1500]) + '\n')
